@@ -54,7 +54,8 @@ def run_impl(case, cfg=None, cls=None):
         return {'exc': 'other', 'cls': 'RecursionError'}
     except BaseException as e:
         if isinstance(e, (KeyboardInterrupt, SystemExit)) and not isinstance(e, Exception):
-            return {'exc': 'render', 'cls': type(e).__name__, 'base_exception': True, 'log': rec.log}
+            return {'exc': 'render', 'cls': type(e).__name__, 'base_exception': True, 'msg': exc_msg(e),
+                    'errors': parse_errors(str(e)), 'log': rec.log, 'tlog': tlog, 'is_render_error': is_render_error(e)}
         return {'exc': 'render', 'cls': type(e).__name__, 'msg': exc_msg(e), 'errors': parse_errors(str(e)),
                 'log': rec.log, 'tlog': tlog, 'is_render_error': is_render_error(e)}
     return {'out': out, 'log': rec.log, 'tlog': tlog, 'handled': len(handled)}
